@@ -9,7 +9,7 @@
 """
 from types import SimpleNamespace
 
-from engine.harness_api import Ob, setup, kf_ok
+from engine.harness_api import Ob, setup, kf_ok, pick
 setup(shim=False)
 
 from gunicorn.http import wsgi  # noqa: E402
@@ -47,7 +47,8 @@ ASSUMPTIONS = [
 OUTSIDE = ["SSL", "real sendfile(2)", "gevent/eventlet socket objects and worker loops",
            "more than 3 body chunks / chunks longer than 2 bytes / Content-Length > 4"]
 
-STATUS = ["200 OK", "204 No Content", "304 Not Modified", "404 Not Found"]
+STATUS = ["200 OK", "204 No Content", "304 Not Modified", "404 Not Found", "205 Reset Content", "206 Partial Content",
+          "303 See Other", "201 Created", "500 Internal Server Error"]
 
 
 class Req:
@@ -60,7 +61,7 @@ class Req:
         return self._close
 
 
-def produce(resp, mode, chunks, status, headers):
+def produce(resp, mode, chunks, status, headers, off=0):
     """what handle_request does with the application's result (sync.py:177-184), for each production mode"""
     if mode == "write":
         w = resp.start_response(status, headers)
@@ -69,7 +70,7 @@ def produce(resp, mode, chunks, status, headers):
         respiter = []
     elif mode in ("file", "filenofd"):
         resp.start_response(status, headers)
-        f = FakeFile(b"".join(chunks), with_fileno=(mode == "file"))
+        f = FakeFile(b"zz"[:off] + b"".join(chunks), pos=off, with_fileno=(mode == "file"))
         W.FILEOS.files[99] = f
         respiter = wsgi.FileWrapper(f)
     elif mode == "mixed":
@@ -87,7 +88,7 @@ def produce(resp, mode, chunks, status, headers):
     resp.close()
 
 
-def _run_framing(req_close, cl, n1, n2, n3):
+def _run_framing(req_close, cl, n1, n2, n3, off=0):
     mode, v11, head, si = CASE["mode"], CASE["v11"], CASE["head"], CASE["si"]
     s = RecSock()
     req = Req((1, 1) if v11 else (1, 0), "HEAD" if head else "GET", req_close)
@@ -97,12 +98,13 @@ def _run_framing(req_close, cl, n1, n2, n3):
     if cl >= 0:
         hdrs.append(("Content-Length", str(cl)))
     chunks = [b"ab"[:n1], b"cd"[:n2], b"ef"[:n3]]
-    produce(resp, mode, chunks, STATUS[si], hdrs)
+    produce(resp, mode, chunks, STATUS[si], hdrs, off)
     return s, resp, b"".join(chunks)
 
 
-def framing(req_close: bool, cl: int, n1: int, n2: int, n3: int) -> bool:
+def framing(req_close: bool, cl: int, n1: int, n2: int, n3: int, off: int) -> bool:
     """
+    pre: 0 <= off <= CASE.get("maxoff", 0)
     pre: -1 <= cl <= CASE["maxcl"]
     pre: 0 <= n1 <= CASE["maxn"] and 0 <= n2 <= CASE["maxn"] and 0 <= n3 <= CASE["maxn3"]
     pre: kf_ok("C02.framing", mode=CASE["mode"], v11=CASE["v11"], head=CASE["head"], si=CASE["si"], cl=cl, total=n1 + n2 + n3)
@@ -110,9 +112,14 @@ def framing(req_close: bool, cl: int, n1: int, n2: int, n3: int) -> bool:
     """
     head, si = CASE["head"], CASE["si"]
     nobody = head or si in (1, 2)
+    cl = pick(cl, -1, CASE["maxcl"])
+    n1 = pick(n1, 0, CASE["maxn"])
+    n2 = pick(n2, 0, CASE["maxn"])
+    n3 = pick(n3, 0, CASE["maxn3"])
+    off = pick(off, 0, CASE.get("maxoff", 0))      # file wrapper: the file object's current position
     if not nobody and cl > n1 + n2 + n3:
         return True          # assumption: the application delivers at least the Content-Length it declared
-    s, resp, app = _run_framing(req_close, cl, n1, n2, n3)
+    s, resp, app = _run_framing(req_close, cl, n1, n2, n3, off)
     raw = s.wire()
     try:
         rs = hr.parse_stream(raw, [head])
@@ -138,8 +145,9 @@ def framing(req_close: bool, cl: int, n1: int, n2: int, n3: int) -> bool:
     return True
 
 
-def framing_twin(req_close: bool, cl: int, n1: int, n2: int, n3: int) -> bool:
+def framing_twin(req_close: bool, cl: int, n1: int, n2: int, n3: int, off: int) -> bool:
     """
+    pre: 0 <= off <= CASE.get("maxoff", 0)
     pre: -1 <= cl <= CASE["maxcl"]
     pre: 0 <= n1 <= CASE["maxn"] and 0 <= n2 <= CASE["maxn"] and 0 <= n3 <= CASE["maxn3"]
     post: __return__
@@ -162,6 +170,7 @@ def keepalive(v11: bool, ci: int, head: bool, si: int, cl: int) -> bool:
     post: __return__
     """
     kind = CASE["kind"]
+    si = [0, 1, 4][pick(si, 0, 1) if not CASE.get("s205") else 2]
     n = 0 if (head or si == 1) else 2
     calls = []
 
@@ -285,26 +294,29 @@ def _framing_cases(maxn, maxn3, maxcl):
     out = []
     for m in ("iter", "write", "file", "filenofd", "mixed"):
         for v in (True, False):
-            for head, si in ((False, 0), (False, 3), (False, 1), (False, 2), (True, 0)):
+            for head, si in ((False, 0), (False, 3), (False, 1), (False, 2), (True, 0), (False, 4), (False, 5), (False, 6),
+                             (False, 7), (False, 8), (True, 4)):
                 nobody = head or si in (1, 2)
-                out.append({"mode": m, "v11": v, "head": head, "si": si, "maxn": 0 if nobody else maxn,
-                            "maxn3": 0 if nobody else maxn3, "maxcl": maxcl})
+                small = si >= 4                      # the extra status codes: one 2-chunk body is enough
+                out.append({"mode": m, "v11": v, "head": head, "si": si, "maxn": 0 if nobody else (1 if small else maxn),
+                            "maxn3": 0 if nobody else (0 if small else maxn3), "maxcl": 1 if small else maxcl,
+                            "maxoff": 2 if (m in ("file", "filenofd") and not small) else 0})
     return out
 
 
-_TW = {"maxn": 2, "maxn3": 1, "maxcl": 3, "head": False, "si": 0}
+_TW = {"maxn": 2, "maxn3": 1, "maxcl": 3, "head": False, "si": 0, "maxoff": 0}
 
 OBLIGATIONS = [
     Ob("C02.framing", "framing", cases={"quick": _framing_cases(2, 1, 3), "thorough": _framing_cases(2, 2, 5)},
        timeout={"quick": 400, "thorough": 1800},
-       bound="HTTP/1.0|1.1 x GET|HEAD x client-close flag x status{200,204,304,404} x Content-Length{none,0..3} x "
-             "3 chunks of length 0..2,0..2,0..1 (thorough 0..2, CL..5) x mode{iterable, write(), file wrapper with/without "
-             "fileno, write()+iterable}"),
+       bound="HTTP/1.0|1.1 x GET|HEAD x client-close flag x status{200,204,304,404 full; 205,206,303,201,500 with a "
+             "1-2 byte body} x Content-Length{none,0..3} x 3 chunks of length 0..2,0..2,0..1 (thorough 0..2, CL..5) x mode{iterable, "
+             "write(), file wrapper with/without fileno at file offset 0..2, write()+iterable}"),
     Ob("C02.framing.twin", "framing_twin", cases=[dict(_TW, mode="iter", v11=True), dict(_TW, mode="file", v11=False)],
        expect="refute", timeout=120),
     Ob("C02.keepalive", "keepalive",
        cases=[{"kind": k, "keepalive": ka, "v11": v} for k in ("sync", "gthread", "async") for ka in (0, 2)
-              for v in (True, False)],
+              for v in (True, False)] + [{"kind": k, "keepalive": 2, "v11": True, "s205": True} for k in ("gthread", "async")],
        timeout=900,
        bound="real handle() of sync/gthread/async-base x keepalive{0,2} x HTTP/1.0|1.1 x Connection{absent,close,"
              "keep-alive,foo} x GET|HEAD x status{200,204} x Content-Length{none,2}, 2-byte body"),
